@@ -397,6 +397,9 @@ instances! {
     c08_zst_n5:      success<ZT, ZU, 5> unwind 7;
     c08_big_n4:      success<BigT, BigU, 4> unwind 6;
     c08_over16_n5:   success<O16T, O16U, 5> unwind 7;
+    c08_plain_n7:    success<P32T, P32U, 7> unwind 9;
+    c08_tracked_n7:  success<TrT, TrU, 7> unwind 9;
+    c08_zst_n7:      success<ZT, ZU, 7> unwind 9;
     // ---- C09, quick
     c09_plain_n3:    fail_arm<P32T, P32U, 3> unwind 5;
     c09_tracked_n3:  fail_arm<TrT, TrU, 3> unwind 5;
@@ -416,6 +419,8 @@ instances! {
     c09_zst_n5:      fail_arm<ZT, ZU, 5> unwind 7;
     c09_over16_n5:   fail_arm<O16T, O16U, 5> unwind 7;
     c09_big_n4:      fail_arm<BigT, BigU, 4> unwind 6;
+    c09_tracked_n7:  fail_arm<TrT, TrU, 7> unwind 9;
+    c09_plain_to_tracked_n5: fail_arm<P32T, Tr4U, 5> unwind 7;
     // ---- C10: refusal matrix (rows: size equal / differs, columns: alignment equal / differs)
     c10_size_ne_align_eq_n3:   refuse<TrT, Tr6U, 3> unwind 5;
     c10_size_eq_align_ne_n3:   refuse<TrT, Tr4A4U, 3> unwind 5;
